@@ -41,7 +41,7 @@ SHARDS = 16
 def plan(tier, seed):
     # (some shards under a kitty identity: what the text styles derive from the terminal's
     # name -- the kitty background workaround -- is a cached terminal fact too)
-    return [dict(persona="other", persona_kw=dict(cell_px=None, area_px=None, name=("foot", "kitty")[i % 4 == 2], version=("1.16", "0.30.1")[i % 4 == 2], xtversion=True, fg=[1, 2, 3], bg=[250, 251, 252]), seed=seed, index=i, hists=N_HIST[tier], stress=N_STRESS[tier], winsize=[80, 24, 640, 384]) for i in range(SHARDS)]
+    return [dict(persona="other", persona_kw=dict(cell_px=None, area_px=None, name=("foot", "foot", "kitty", "WezTerm")[i % 4], version=("1.16", "1.16", "0.30.1", "20230712-072601")[i % 4], xtversion=True, fg=[1, 2, 3], bg=[250, 251, 252]), seed=seed, index=i, hists=N_HIST[tier], stress=N_STRESS[tier], winsize=[80, 24, 640, 384]) for i in range(SHARDS)]
 
 
 class Model:
@@ -54,6 +54,7 @@ class Model:
         self.cache = None  # (cols, rows) -> value last served/cached with its provenance
         self.memo = {}  # memoized query helpers: None | "enabled" | "disabled"
         self.support = None  # auto cell ratio support: None (undetermined) | True | False
+        self.style_support = None  # iterm2-style support once determined for good (None: not yet)
         self.cached_while_disabled = False
 
     def fresh_cell(self):
@@ -125,11 +126,14 @@ def run_history(seed, env, res, probes, allow_subprocess=False):
     term_image.enable_queries()
     term_image.set_cell_ratio(0.5)
     AutoCellRatio.is_supported = None  # documented as settable: undetermined
+    from term_image.image import ITerm2Image as _I2
+
+    _I2._supported = None  # (state hygiene between histories: style support undetermined)
     probes.reset()
     sizes_seen = []
     steps = rnd.randint(5, 40)
     for step in range(steps):
-        op = rnd.choice(["resize", "resize", "resize_back", "resize_back", "pixels", "swap_on", "swap_off", "q_on", "q_off", "ratio", "xt", "read", "read", "read", "read_ratio", "probe", "probe", "probe_resize", "read_colours", "read_name", "read_on_kitty"] + (["subprocess"] if allow_subprocess else []))
+        op = rnd.choice(["resize", "resize", "resize_back", "resize_back", "pixels", "swap_on", "swap_off", "q_on", "q_off", "ratio", "xt", "read", "read", "read", "read_ratio", "probe", "probe", "probe_resize", "read_colours", "read_name", "read_on_kitty", "read_support"] + (["subprocess"] if allow_subprocess else []))
         ops.append(op)
         if m.term[:2] not in sizes_seen:
             sizes_seen.append(m.term[:2])
@@ -269,6 +273,28 @@ def run_history(seed, env, res, probes, allow_subprocess=False):
                 return
             if slot is None:
                 m.memo["read_name"] = "enabled" if m.queries else "disabled"
+        elif op == "read_support":
+            # iterm2-style support follows from the terminal's name (WezTerm: supported): a
+            # positive finding may be kept for good, a negative one obtained while queries
+            # were disabled must not survive enable_queries()
+            from term_image.image import ITerm2Image
+
+            got = ITerm2Image.is_supported()
+            res.count("reads compared with the model")
+            slot = m.memo.setdefault("read_name", None)
+            if m.style_support is not None:
+                want = m.style_support  # determined for good (positive, or negative with queries on)
+            else:
+                name_known = (slot != "disabled") if m.queries else (slot == "enabled")
+                want = name_known and p.name.lower() == "wezterm"
+                if slot is None:
+                    # the determination asked for the terminal's name
+                    m.memo["read_name"] = "enabled" if m.queries else "disabled"
+                if want or m.queries:
+                    m.style_support = want
+            if got != want:
+                fail("stale-query-result", "ITerm2Image.is_supported() = %r, a fresh determination gives %r (terminal says %r; queries %s, name obtained while %s)" % (got, want, p.name, "enabled" if m.queries else "disabled", slot))
+                return
         elif op in ("read_colours", "read_name"):
             # memoized query results: what was obtained while queries were disabled must
             # not survive re-enabling them
